@@ -354,7 +354,7 @@ func (w *c06World) lookup(p c06Probe) (ans int, caps string) {
 	}()
 
 	u := url.URL{Scheme: "http", Host: "h", Path: p.P}
-	if p.Raw {
+	if p.Raw && p.P != "" { // an empty RawPath means "no raw path": FindRule then uses Path
 		u.Path, u.RawPath = "/decoded/elsewhere", p.P
 	}
 
@@ -982,6 +982,11 @@ func c06GenRun(r *vf.Rand) (c06Case, c06Obs, []string) {
 			} else {
 				pool = append(pool, c06GenExpr(r, &pf))
 			}
+		}
+
+		// the empty expression (values on the root node) and the bare slash
+		if pf.exotic > 0 && r.Intn(100) < 12 {
+			pool = append(pool, vf.Pick(r, []string{"", "/", ""}))
 		}
 
 		// fallbacks make backtracking (and a wrong node flag) visible
